@@ -51,15 +51,31 @@ def toy_salt(data):
     return bytes((a * (j + 1) + j) % 256 for j in range(1, 33))
 
 
+class _MacObject:
+    """The object API of hmac.HMAC (update / copy / digest / hexdigest) over a function mac(key, message)."""
+
+    def __init__(self, mac, key, msg=None):
+        self._mac, self._key, self._buf = mac, bytes(key), bytes(msg or b"")
+
+    def update(self, data):
+        self._buf += bytes(data)
+
+    def copy(self):
+        return _MacObject(self._mac, self._key, self._buf)
+
+    def digest(self):
+        return self._mac(self._key, self._buf)
+
+    def hexdigest(self):
+        return self.digest().hex()
+
+
 class ToyHmacModule:
     """Stands in for the `hmac` module global of a private copy of py_ecc.bls.hash."""
 
     @staticmethod
     def new(key, msg=None, digestmod=None):
-        class _H:
-            def digest(self):
-                return toy_mac(key, msg)
-        return _H()
+        return _MacObject(toy_mac, key, msg)
 
 
 class RecHmacModule:
@@ -69,12 +85,11 @@ class RecHmacModule:
     def new(self, key, msg=None, digestmod=None):
         rec = self
 
-        class _H:
-            def digest(self):
-                out = _hmac.new(bytes(key), bytes(msg), digestmod).digest()
-                rec.g.append({"key": list(key), "msg": list(msg), "out": list(out)})
-                return out
-        return _H()
+        def mac(k, m):
+            out = _hmac.new(bytes(k), bytes(m), digestmod).digest()
+            rec.g.append({"key": list(k), "msg": list(m), "out": list(out)})
+            return out
+        return _MacObject(mac, key, msg)
 
 
 def recording_hash(fn):
